@@ -434,6 +434,8 @@ def f_two_inputs(p):
     b = sorted(set((r.randrange(dom), r.randrange(dom)) for _ in range(r.randrange(3, 14))) | set(a[:1]))
     p.facts[n] = [("%d" % x, "%d" % y) for x, y in a]
     p.aux_facts[n + "_b"] = [("%d" % x, "%d" % y) for x, y in b]
+    p.meta.setdefault("aux_inputs", {})[n + "_b"] = n  # fact file stem -> relation it is loaded into
+    p.meta.setdefault("io_rels", []).append(n)  # it is an output relation as well
     p.rule('.input %s(IO="file", filename="%s_b.facts")' % (n, n))
     m = p.fresh("tid")
     p.decl(m, [("x", "number"), ("z", "number")])
@@ -572,8 +574,8 @@ def gen_c21(seed, size="quick"):
     """programs for the embedding-API histories: no relation that is both input and derived (the history model keeps inputs and
     derived relations apart); often with eqrel relations, eqrel / brie / typed input relations"""
     rr = random.Random(seed ^ 0x21)
-    always = tuple(f for f, pr in ((f_eqrel, 0.3), (f_eqrel_input, 0.4), (f_typed_input, 0.4), (f_io_relation, 0.5), (f_wide, 0.3)) if rr.random() < pr)
-    return gen_c03(seed, size, exclude=(f_input_derived, f_two_inputs), always=(f_multi_index,) + always)
+    always = tuple(f for f, pr in ((f_eqrel, 0.3), (f_eqrel_input, 0.4), (f_typed_input, 0.4), (f_io_relation, 0.5), (f_wide, 0.3), (f_two_inputs, 0.4)) if rr.random() < pr)
+    return gen_c03(seed, size, exclude=(f_input_derived,), always=(f_multi_index,) + always)
 
 
 def gen_c20(seed, size="quick"):
